@@ -23,6 +23,20 @@ def props_table():
     return "\n".join(rows)
 
 
+def grades_table():
+    import re
+    rows = ["| id | grade claimed (first sentence of MANIFEST level_claimed.text) |", "|---|---|"]
+    for i in range(1, 35):
+        pid = f"C{i:02d}"
+        try:
+            P = importlib.import_module(f"sfv.props.{pid.lower()}").PROPERTY
+        except Exception:  # noqa: BLE001
+            continue
+        txt = " ".join(P.level_text.split())
+        rows.append(f"| {pid} | {txt[:330].replace('|', '/')}… |")
+    return "\n".join(rows)
+
+
 def seeded_table():
     rows = ["| seed | property | what it needs to manifest | result of the check |", "|---|---|---|---|"]
     for d in sorted(glob.glob(os.path.join(ROOT, "seeded", "*"))):
@@ -31,6 +45,10 @@ def seeded_table():
             continue
         meta = json.load(open(m))
         rows.append(f"| {os.path.basename(d)} | {meta['property']} | {meta['needs_to_manifest'].replace('|', '/')} | {meta['check_result'].replace('|', '/')} |")
+    ob = os.path.join(ROOT, "seeded", "OBSOLETE.json")
+    if os.path.exists(ob):
+        for k, v in sorted(json.load(open(ob)).items()):
+            rows.append(f"| {k} | {k[:3]} | (no longer applies to /repo HEAD) | not run: {v} |")
     return "\n".join(rows)
 
 
@@ -53,7 +71,7 @@ def findings_list():
 def main():
     path = os.path.join(ROOT, "DESIGN.md")
     s = open(path).read()
-    for name, text in (("PROPS", props_table()), ("SEEDED", seeded_table()), ("FINDINGS", findings_list())):
+    for name, text in (("PROPS", props_table()), ("GRADES", grades_table()), ("SEEDED", seeded_table()), ("FINDINGS", findings_list())):
         a, b = f"<!-- BEGIN {name} -->", f"<!-- END {name} -->"
         if a in s and b in s:
             s = s[: s.index(a) + len(a)] + "\n" + text + "\n" + s[s.index(b):]
